@@ -9,7 +9,7 @@ import (
 	"os"
 	"strconv"
 
-	_ "verif.local/engine/checks"
+	"verif.local/engine/checks"
 	"verif.local/engine/core"
 )
 
@@ -56,6 +56,7 @@ func main() {
 		os.Exit(3)
 	}
 	ctx := &core.Ctx{Tier: *tier, Seed: *seed}
+	checks.SetTier(*tier)
 	if *list {
 		for _, u := range c.Units(ctx) {
 			fmt.Println(u.Name)
